@@ -207,6 +207,8 @@ def build_config(ctl, w, j, values, objs):
         v = objs[k] if use_obj else values[k]
         if how == "direct":
             kw["child"] = v
+        elif how == "falsy":
+            kw["bag"] = V.Bag(names=[], child=v)      # a configuration whose truth value is False
         elif how == "list":
             items.append(v)
         elif how == "dict":
